@@ -540,7 +540,7 @@ func c03Run(c *ev.Ctx) {
 var C03 = &ev.Property{
 	ID:    "C03",
 	Level: "exploration",
-	Rule: "each case is a seeded sequence of 1-80 creations (CreateGroup, small CreateDataset, CreateHardLink to datasets/groups/ancestors, CreateSoftLink, CreateExternalLink, CreateDenseGroup with links) over a pool of 3-40 names (short, long enough to fill the 256-byte name heap, UTF-8 with two and three bytes per character), depth up to 6 (one history in sixteen starts with a chain of 40-140 nested groups), one fifth of the requests deliberately invalid (existing name, missing parent, relative/empty path, a path through a \"..\" or \".\" component that is no member, missing link target), one fifth of the histories filling one group towards its 32-entry capacity; a tree model decides for every request whether it must succeed, must fail, or sits at a documented capacity limit; after Close and reopen the walked tree (paths, kinds, no duplicate names, hard-linked datasets at the same address) is compared with the model expanded through hard links. " +
+	Rule: "each case is a seeded sequence of 1-80 creations (CreateGroup, small CreateDataset, CreateHardLink to datasets/groups/ancestors, CreateSoftLink, CreateExternalLink, CreateDenseGroup with links) over a pool of 3-40 names (short, long enough to fill the 256-byte name heap, UTF-8 with two and three bytes per character; in every second history 2-6 more names that are a proper prefix or an extension of another name), depth up to 6 (one history in sixteen starts with a chain of 40-140 nested groups), one fifth of the requests deliberately invalid (existing name, missing parent, relative/empty path, a path through a \"..\" or \".\" component that is no member, missing link target), one fifth of the histories filling one group towards its 32-entry capacity; a tree model decides for every request whether it must succeed, must fail, or sits at a documented capacity limit; after Close and reopen the walked tree (paths, kinds, no duplicate names, hard-linked datasets at the same address) is compared with the model expanded through hard links. " +
 		"non-trivial: >=2 operations; distinct = (superblock, ops/10, nodes/5, op kinds used, ancestor link, capacity edge, fill).",
 	Assumptions: []string{
 		"documented capacity limits (32 entries, 256-byte name heap) make a refusal legitimate ('either'); below 24 entries and with heap room a valid creation must succeed",
